@@ -36,6 +36,17 @@ Named(nm, o) == << [Node(o, 0, "def") EXCEPT !.k = o] @@ [name |-> nm],
                    [Node("BOOLEAN", 4, "comp") EXCEPT !.opt = "def"] >>
 EmitNames == n = 1 => \A nm \in NameShapes, o \in Outer :
                 PrintT(<<"CASE", ToJson([mods |-> << [tagdef |-> "AUTOMATIC", implied |-> FALSE] >>, nodes |-> Named(nm, o)])>>)
+\* imported names: a type of every name shape -- and of the shapes that an information object class reference has (capitals and
+\* hyphens only, which X.680 12.2 allows for a type reference just as well) -- defined in module 1, imported and used in module 2
+UpperShapes == {"ID", "T", "PDU", "NGAP-PDU"}
+Imported(nm, o) == << [Node(o, 0, "def") EXCEPT !.k = o] @@ [name |-> nm],
+                      Node("BOOLEAN", 1, RoleUnder(o)),
+                      [Node("SEQUENCE", 0, "def") EXCEPT !.m = 2],
+                      [Node("REF", 3, "comp") EXCEPT !.m = 2, !.ref = 1],
+                      [Node("INTEGER", 3, "comp") EXCEPT !.m = 2, !.opt = "opt"] >>
+EmitImported == n = 1 => \A nm \in NameShapes \cup UpperShapes, o \in Outer :
+                PrintT(<<"CASE", ToJson([mods |-> << [tagdef |-> "AUTOMATIC", implied |-> FALSE], [tagdef |-> "EXPLICIT", implied |-> FALSE] >>,
+                                         nodes |-> Imported(nm, o)])>>)
 Emit == \A o \in Outer, ch \in Chains(n), leaf \in Leaves :
            PrintT(<<"CASE", ToJson([mods |-> << [tagdef |-> "AUTOMATIC", implied |-> FALSE] >>, nodes |-> Table(o, ch, leaf)])>>)
 =============================================================================
